@@ -305,7 +305,7 @@ JOBS['C05'] = [
 
 # ---------------------------------------------------------------- C19
 META['C19'] = {
-    'bounds': {'quick': 'all sequences of 2 commands from a 49-entry menu (j k G H L ^E ^Y ^D ^U ^F ^B z<CR> z. z- dd x o O p P J u ^R :d :1,3d :$ $ 0 3G 2dd yyP 5j w A :2 ^E^E Hdk Hck Ld2j Hjd2k, multi-line inserts whose first line runs past the right edge, $j $k 30| j$, counted puts of a character-wise text spanning a line break (majly`a2p, …3P), leaving a remembered column beyond a short line) on buffers of 3 and 12 lines (and 12 lines with one long line) in a 6x20 window, and of 1 command on an empty buffer and in a 4x10 window; 2 commands of 20 (j k $ 0 x 25l 12l h dd u p yyP G H ^E D 30| 5| jj 3x) on a buffer with right-to-left lines of 32 and 16 Arabic letters (shaping off) in the same window; a split screen (12 rows, two windows on a 20-line buffer, starting in the upper or the lower one) with 2 commands of 20 (j k ^E ^Y ^D ^U dd o p G H L ^Wj ^Wk ^Wx ^Wo ^Wc u 5j z<CR>), the active window compared; highlighting off',
+    'bounds': {'quick': 'all sequences of 2 commands from a 47-entry menu (j k G H L ^E ^Y ^D ^U ^F ^B z<CR> z. z- dd x o O p P J u ^R :d :1,3d :$ $ 0 3G 2dd yyP 5j w A :2 ^E^E Hdk Hck Ld2j Hjd2k, multi-line inserts whose first line runs past the right edge, $j $k 30| j$ leaving a remembered column beyond a short line) on buffers of 3 and 12 lines (and 12 lines with one long line) in a 6x20 window, and of 1 command on an empty buffer and in a 4x10 window; 2 commands of 20 (j k $ 0 x 25l 12l h dd u p yyP G H ^E D 30| 5| jj 3x) on a buffer with right-to-left lines of 32 and 16 Arabic letters (shaping off) in the same window; a split screen (12 rows, two windows on a 20-line buffer, starting in the upper or the lower one) with 2 commands of 20 (j k ^E ^Y ^D ^U dd o p G H L ^Wj ^Wk ^Wx ^Wo ^Wc u 5j z<CR>), the active window compared; highlighting off',
                'thorough': 'sequences of 3 commands on the 12-line buffers'},
     'outside': 'mixed-direction lines and shaped letters on screen (right-to-left lines are pure runs of two-byte letters); highlighting on (the emulator ignores attributes; only A==B is meaningful there); the inactive window of a split screen (it is redrawn when it becomes active); lines with tabs or wide characters (the cell oracle is ASCII)',
     'assumptions': ['the terminal is the VT100 subset of harness/vt.h (CUP, CUF/CUB, EL, IL, DL, DECSTBM, SGR ignored, CR, LF)', 'the editor state is observed between two commands through the environment hook that fires when the next key is read'],
